@@ -353,6 +353,10 @@ pub fn drive(plan: Plan, tier: Tier) -> ! {
     for f in plan.finish_extra {
         f(&mut st, &rep);
     }
+    let pz = crate::poison::TOTAL.load(Ordering::Relaxed);
+    if pz > 0 {
+        st.counters.insert("unhappy_history_prologues_run_before_builds".into(), pz);
+    }
     finish_run(
         plan.id,
         plan.level,
